@@ -114,6 +114,7 @@ class C01(core.Check):
         c.append({'k': 'file', 'bytes': [0xfe, 0x1a], 'name': 'X'})
         c.append({'k': 'file', 'bytes': [0xff], 'name': 'X'})
         c.append({'k': 'file', 'bytes': [0xfc, 1, 2, 3], 'name': 'X'})
+        c.append({'k': 'file', 'bytes': [0xff, 0x7a, 0x12, 10, 0, 0x91, 0x20, 0x11, 0, 0, 0, 0x0e, 1], 'name': 'X'})     # D14b: junk behind the seal
         c.append({'k': 'file', 'bytes': [254, 194, 2, 82, 129, 234, 9, 230], 'name': 'X'})     # D01j: constant cut short by the end of the text
         c.append({'k': 'file', 'bytes': [0xff, 0x7a, 0x12, 10, 0, 0x91, 0x20, 0x1d], 'name': 'X'})
         c.append({'k': 'file', 'bytes': [0xff, 0x7a, 0x12, 10, 0, 0x89, 0x20, 0x0e, 5], 'name': 'X'})
@@ -240,7 +241,8 @@ class C01(core.Check):
             addr += len(rec)
             out += rec
             num = rng.choice([num + 1, num + 10, 65529, 65530, 65535, num, max(0, num - 5)]) if not big else num + 1
-        return list(out + b'\0\0\x1a')
+        junk = rng.choice([b'', b'', b'\x0e', b'\x0e\x01', b'\x1d\x00', b'\x0f', b'xx\x1c\x05', bytes(rng.randrange(256) for _ in range(rng.randrange(1, 6)))])
+        return list(out + b'\0\0' + junk + rng.choice([b'\x1a', b'']))
 
     AFTER = ['CONT', 'RUN', 'LIST', 'PRINT ERR;ERL', 'RESUME', 'RESUME NEXT', 'EDIT 20', 'NEW', 'RENUM', 'GOTO 100', 'RETURN', 'STOP']
 
